@@ -133,12 +133,17 @@ fn alpha_sweep(cfg: &Cfg) -> Vec<Op> {
     v
 }
 
+fn alpha_wide(cfg: &Cfg) -> Vec<Op> {
+    super::sweep::layered(super::sweep::wide_placements(cfg), super::sweep::wide_scroll_funcs(cfg))
+}
+
 pub fn run(ctx: &Ctx) -> Report {
     let mut rep = Report::new();
     let p = parts!(ctx.tier, &SYS);
     run_part(ctx, &mut rep, &p);
     run_part(ctx, &mut rep, &medium_part(ctx.tier));
     run_part(ctx, &mut rep, &super::sweep::sweep_part("scroll-large-screen-parameter-sweep", &SYS_SWEEP, &alpha_sweep, ctx.tier));
+    run_part(ctx, &mut rep, &super::sweep::wide_part("scroll-realistic-screen-parameter-sweep", &SYS_SWEEP, &alpha_wide, ctx.tier));
     rep.rule = "lock-step BFS of (real Vt, reference terminal) from a screen whose rows carry distinct content: LF/IND/NEL/RI, SU/SD/IL/DL x counts {default,1,2,h-1,h,h+1,65535}, valid and invalid DECSTBM pairs, wrap-causing text, with cursor placement on every row, coloured pen, alternate screen, resizes; after every transition all rows of lines() (screen and scrollback, cells) and the margins are compared".into();
     rep.assumptions = vec!["scrollback compared with unlimited scrollback (and limit 0 for the alternate-screen clause); wrap marks after scrolls are adopted (not specified)".into()];
     rep
@@ -148,6 +153,9 @@ pub fn replay(ctx: &Ctx, v: &Value) -> bool {
     let tier = if v["tier"] == "thorough" { Tier::Thorough } else { Tier::Quick };
     if v["part"] == "scroll-lockstep-medium-screen" {
         return replay_part(ctx, &medium_part(tier), v);
+    }
+    if v["part"] == "scroll-realistic-screen-parameter-sweep" {
+        return replay_part(ctx, &super::sweep::wide_part("scroll-realistic-screen-parameter-sweep", &SYS_SWEEP, &alpha_wide, tier), v);
     }
     if v["part"] == "scroll-large-screen-parameter-sweep" {
         return replay_part(ctx, &super::sweep::sweep_part("scroll-large-screen-parameter-sweep", &SYS_SWEEP, &alpha_sweep, tier), v);
